@@ -258,10 +258,30 @@ def _members_ref(body: bytes, make):
         try:
             out += d.decompress(data)
         except Exception:
-            return None
+            # a library may reject in one shot what it accepts piecewise (zstd: frame content size
+            # mismatch): the stream counts as corrupt only if the byte-wise decode rejects it too
+            return _bytewise_ref(body, make)
         if not d.eof:
             raise Incomplete
         data = d.unused_data
+    return bytes(out)
+
+
+def _bytewise_ref(body: bytes, make):
+    out = bytearray()
+    d = make()
+    fresh = True
+    for i in range(len(body)):
+        if d.eof:
+            d = make()
+            fresh = True
+        try:
+            out += d.decompress(body[i:i + 1])
+        except Exception:
+            return None
+        fresh = False
+    if not d.eof and not fresh:
+        raise Incomplete
     return bytes(out)
 
 
@@ -343,7 +363,7 @@ def chunked_frame(rng, body: bytes, lax: bool):
     out = bytearray()
     i = 0
     while i < len(body):
-        k = rng.choice([1, 1, 2, 3, 5, 8, 13, 64, 1000])
+        k = rng.choice([1, 1, 2, 3, 5, 8, 13, 64, 1000]) if len(body) < 3000 else rng.choice([64, 1000, 4096, 20000])
         piece = body[i:i + k]
         i += len(piece)
         size = (b"%x" if rng.random() < 0.8 else b"%X") % len(piece)
@@ -425,6 +445,12 @@ def exc_kind(e: BaseException) -> str:
     return "Other:" + type(e).__name__
 
 
+def cap_of(enc):
+    """Largest output of one decompress_sync(data, max_length=m) call: exact for zlib and zstd; the brotli binding
+    fills whole blocks (32752 bytes, doubling) until the limit is reached, so it can return up to 2m + 32768."""
+    return (lambda m: 2 * m + 32768) if enc == "br" else (lambda m: m)
+
+
 class Peak:
     """Largest StreamReader._size seen right after any feed, with the marks at that moment."""
     worst = None  # (excess, size, low, high)
@@ -442,12 +468,13 @@ def _install_peak_reader():
         def feed_data(self, data):
             r = super().feed_data(data)
             if self._low_water < MAXSIZE:
-                ex = self._size - (self._high_water + max(PeakReader.limit, self._low_water) + PeakReader.slack)
+                ex = self._size - (self._high_water + PeakReader.capf(max(PeakReader.limit, self._low_water)) + PeakReader.slack)
                 if Peak.worst is None or ex > Peak.worst[0]:
                     Peak.worst = (ex, self._size, self._low_water, self._high_water)
             return r
     PeakReader.limit = 0
     PeakReader.slack = 0
+    PeakReader.capf = staticmethod(lambda m: m)
     PeakReader.__name__ = "StreamReader"
     hp.StreamReader = PeakReader
     return PeakReader
@@ -469,6 +496,7 @@ class Rig:
         pr = _install_peak_reader()
         pr.limit = cfg["limit"]
         pr.slack = 0 if (cfg["flow"] and cfg["enc"]) else 1 << 40
+        pr.capf = staticmethod(cap_of(cfg["enc"]))
         Peak.worst = None
         self.proto.data_received(self.head())
         self.msg, self.payload = loop.run_until_complete(self.proto.read())
@@ -612,6 +640,7 @@ def gen_history(rng, rig: Rig, segs: list[bytes], close_after: bool, max_steps=4
 
     steps = 0
     closed_early = False
+    late_close = False
     early_close = (not close_after) and rng.random() < 0.08
     while outcome is None and steps < max_steps:
         steps += 1
@@ -626,6 +655,7 @@ def gen_history(rng, rig: Rig, segs: list[bytes], close_after: bool, max_steps=4
             closed = True
             continue
         if i >= len(segs) and not closed and rig.deliverable() and rig.parser_open() and rng.random() < 0.3:
+            late_close = True
             do("X")           # the peer sent everything and closes (its FIN is seen as soon as the transport reads)
             closed = True
             continue
@@ -658,7 +688,7 @@ def gen_history(rng, rig: Rig, segs: list[bytes], close_after: bool, max_steps=4
     else:
         outcome = outcome or "budget"
     summary = {"received": bytes(received), "outcome": outcome or "stuck", "blocked_before_close": stuck,
-               "delivered_all": i >= len(segs), "closed": closed, "closed_early": closed_early, "steps": len(evs)}
+               "delivered_all": i >= len(segs), "closed": closed, "closed_early": closed_early, "late_close": late_close, "steps": len(evs)}
     return evs, obs, summary
 
 
@@ -701,8 +731,8 @@ def verdicts(case, summary, refst):
                         if summary.get("delivered_all") else "valid complete body: the consumer is blocked while the transport stays paused / undelivered"))
         elif oc == "budget":
             pass
-        elif oc == "err:ConnClosed":
-            out.append(("lost_at_close", f"valid complete body: RuntimeError('Connection closed.') after {len(rec)} of {len(ref)} bytes"))
+        elif oc == "err:ConnClosed" or (summary.get("late_close") and oc in ("err:TransferEncoding", "err:ContentLength")):
+            out.append(("lost_at_close", f"valid complete body, the peer closed after sending all of it: {oc[4:]} after {len(rec)} of {len(ref)} bytes"))
         else:
             out.append(("spurious_error", f"valid complete body rejected with {oc} after {len(rec)} bytes"))
         if summary.get("blocked_before_close") and framing != "E" and oc != "stuck":
@@ -728,7 +758,7 @@ def verdicts(case, summary, refst):
 def bound_verdict(case):
     w = Peak.worst
     if w is not None and w[0] > 0:
-        return [("unbounded", f"reader buffered {w[1]} bytes with low={w[2]} high={w[3]} limit={case['cfg']['limit']}: more than high + max(limit, low)")]
+        return [("unbounded", f"reader buffered {w[1]} bytes with low={w[2]} high={w[3]} limit={case['cfg']['limit']}: more than high + cap(max(limit, low))")]
     return []
 
 
@@ -763,8 +793,14 @@ SIGNATURES = {
 # =================================================================================================
 # model side
 
+_MODEL = None
+
+
 def build_model():
-    return fw.ocaml_model("C09", ["Model/Decode.vo"])
+    global _MODEL
+    if _MODEL is None or not _MODEL[0]:
+        _MODEL = fw.ocaml_model("C09", ["Model/Decode.vo"])
+    return _MODEL
 
 
 ENC_NUM = {"": 0, "gzip": 1, "deflate": 2}
@@ -843,7 +879,9 @@ def run_case(loop, case, rng=None, evs=None):
             obs, summary = replay_history(rig, evs)
             summary.setdefault("delivered_all", True)
             summary.setdefault("closed", "X" in evs)
-            summary.setdefault("blocked_before_close", False)
+            summary["blocked_before_close"] = _blocked_before_close(evs, obs)
+            summary["closed_early"] = bool(case.get("closed_early"))
+            summary["late_close"] = bool(case.get("late_close"))
         bad = bound_verdict(case)
     finally:
         rig.close()
@@ -892,7 +930,7 @@ def suite_glue(ctx, exe, n):
         ctx.count("glue:outcome:" + summary["outcome"].split(":")[0])
         ctx.count("glue:body:" + case.get("tag", "?") + "/" + case["wire_state"])
         ctx.count("glue:events", len(evs))
-        full = dict(case, suite="glue", events=evs)
+        full = dict(case, suite="glue", events=evs, closed_early=bool(summary.get("closed_early")), late_close=bool(summary.get("late_close")))
         oom = next((i for i, t in enumerate(mobs) if t.startswith("eOutOfModel")), None)
         if oom is not None:          # trailer fields / message heads: outside the model from this token on
             ctx.count("glue:out_of_model")
@@ -1009,7 +1047,7 @@ def suite_real(ctx, n):
             ctx.count("real:codec:" + case["codec"])
             ctx.count("real:outcome:" + summary["outcome"].split(":")[0])
             ctx.count("real:body:" + case["tag"] + "/" + case["wire_state"])
-            full = dict(case, suite="real", events=evs)
+            full = dict(case, suite="real", events=evs, closed_early=bool(summary.get("closed_early")), late_close=bool(summary.get("late_close")))
             for kind, msg in verdicts(case, summary, ref) + bad:
                 ctx.violation(dict(full, kind=kind), f"{kind}: {msg}")
     finally:
@@ -1062,7 +1100,7 @@ def suite_laws(ctx, n):
             except Exception:
                 err = True
                 break
-            if len(o) > m:
+            if len(o) > cap_of(enc)(m):
                 ctx.violation({"suite": "laws", "kind": "law_cap", "codec": e, "body": body.hex(), "calls": calls},
                               f"codec law (cap): {e} returned {len(o)} bytes for max_length={m}")
             if not o and h.data_available and not d:
@@ -1252,7 +1290,6 @@ def replay(ctx, case):
         cu.set_zlib_backend(_zlib)
         asyncio.set_event_loop(None)
         loop.close()
-    summary["blocked_before_close"] = _blocked_before_close(evs, obs)
     v = verdicts(case, summary, case_ref(case)) + bad
     res = {"events": evs, "impl": obs, "outcome": summary["outcome"], "received": len(summary["received"]),
            "violates": bool([k for k, _ in v if case.get("kind") in (None, k)]), "why": [f"{k}: {m}" for k, m in v]}
@@ -1268,10 +1305,10 @@ def _blocked_before_close(evs, obs) -> bool:
     blocked = False
     for tok, o in zip(evs, obs):
         r = o.split("/")[0]
+        if tok == "X" and r != "s":
+            return blocked
         if tok[0] in "AR":
             blocked = r == "b"
         elif r not in ("-", "s"):
             blocked = False
-        if tok == "X" and r != "s":
-            return blocked
     return False
